@@ -36,7 +36,7 @@ type half struct {
 	consumed int64 // bytes ever read
 	failAt   int64 // inject rerr once consumed reaches failAt (<0: never)
 	failErr  error
-	failOnce bool          // the injected error is transient: reported once, then the stream goes on
+	failOnce bool // the injected error is transient: reported once, then the stream goes on
 	// a stream may hand out its last bytes together with io.EOF (QUIC does when the FIN arrives with the data)
 	eofWithData bool
 	// writer-side fault: the write that would take the total past wfailAt-1 bytes accepts only the bytes up to
@@ -44,8 +44,8 @@ type half struct {
 	wfailAt   int64
 	wfailErr  error
 	wfailOnce bool
-	wake     chan struct{} // closed+replaced on every change, for unmanaged readers
-	onFault  func(kind string)
+	wake      chan struct{} // closed+replaced on every change, for unmanaged readers
+	onFault   func(kind string)
 }
 
 func newHalf() *half { return &half{failAt: -1, wake: make(chan struct{})} }
